@@ -51,5 +51,9 @@ def reset_exo_globals():
                 rec(s)
 
         rec(StaticMemory)
+        from . import session as _S
+
+        for c in _S._SIMSTATIC:
+            c.reg.clear()
     except Exception:
         pass
